@@ -593,6 +593,26 @@ func (vc *VC) backEdge(rs *runState, p *ssa.BasicBlock, succIdx int, h *ssa.Basi
 		}
 		over[phi] = vc.val(phi.Edges[predIndex(h, p)])
 	}
+	if vc.c != nil {
+		for _, lc := range vc.c.LoopCalls[li.ord] {
+			var call *ssa.Call
+			for _, b := range vc.fn.Blocks {
+				for _, ins := range b.Instrs {
+					if c, ok := ins.(*ssa.Call); ok && callName(c.Common()) == lc.Name && vc.callOrdinal(c) == lc.K {
+						call = c
+					}
+				}
+			}
+			if call == nil {
+				panic(specFail(fmt.Sprintf("loop %d: calls %s#%d: no such call in %s", li.ord, lc.Name, lc.K, vc.fn.Name())))
+			}
+			pcCall, ok := vc.callPC[call]
+			if !ok || !li.blocks[call.Block()] {
+				pcCall = "false"
+			}
+			vc.oblige("inv-calls", cond, pcCall, li.pos, fmt.Sprintf("loop %d: every iteration calls %s#%d", li.ord, lc.Name, lc.K))
+		}
+	}
 	for _, inv := range li.invs {
 		if vc.dropped[inv.key] {
 			continue
